@@ -127,7 +127,19 @@ func GenPayload() *rapid.Generator[[]byte] {
 		rapid.Just([]byte{}),
 		rapid.SliceOfN(rapid.Byte(), 0, 40),
 		rapid.Map(rapid.StringN(0, 20, -1), func(s string) []byte { return []byte(s) }),
+		// payloads that are documents in the very formats the components speak themselves: JSON in every spelling
+		// (spaced, pretty-printed, with characters encoders like to escape), things that look like a forwarder
+		// envelope, a request-reply result, a protobuf body. A payload is opaque bytes to every component.
+		rapid.Map(rapid.SampledFrom(documentPayloads), func(s string) []byte { return []byte(s) }),
 	)
+}
+
+var documentPayloads = []string{
+	`{"id": 1}`, "{\n  \"id\": 1,\n  \"tags\": [ \"a\", \"b\" ]\n}\n", ` 42`, "[1,2,3]\n", `{"html":"<b>&amp;</b> > <"}`, "{\"sep\":\"\u2028\u2029\"}", `"just a string"`, `null`, `{}`, `{"a":1}{"b":2}`,
+	`{"destination_topic":"elsewhere","amount":3}`,
+	`{"destination_topic":"elsewhere","uuid":"inner-uuid","payload":"aW5uZXI=","metadata":{"inner":"meta"}}`,
+	`{"destination_topic":"","uuid":"u","payload":"cA=="}`, `{"uuid":"u","payload":"cA==","metadata":null}`,
+	`{"CmdID":"x","Attempt":1}`, "\x08\x96\x01\x12\x03abc", "\xff\xfe\xfd", "100% %s %d %!", "line one\nline two\r\n", "\x00",
 }
 
 // GenSnap generates arbitrary message values.
